@@ -36,6 +36,57 @@ CHECKS["C20"] = dict(
     note="Trusted: z3, fixedint model, CPython renderers (placeholders). Bounds: one instruction boundary from an arbitrary state (inductive); table clause on a 2-word (quick) / 4-word (thorough) memory with concrete opcodes per cell.",
 )
 
+
+MC = "model_checking"
+CHECKS["C02"] = dict(category=MC, design_ref="5/C02",
+    text="Bounded symbolic programs: every instruction class as a one-instruction program (full operand space) and all instruction sequences up to a length bound over a hazard-complete 14-instruction alphabet are run to completion by the real five-stage and single-cycle simulations on the same symbolic initial state (register indices, immediates incl. branch/jump displacements, register and memory contents all symbolic, so every RAW/WAW distance, x0 pattern, branch direction and target is a path). z3 proves equal registers, memory, output, exit code, retired order, instruction/branch/call counts, termination and identical fault reports on every path.",
+    note="Oracle = the repository's single-cycle mode (tied to the ISA by C01). Bounds: L<=2 complete (+ sampled L=3) quick; L=3 reduced alphabet complete + rest best-effort thorough; K=2L+2 executed instructions, <=2 dynamic ecalls, ecall strings bounded; paths whose branch feasibility z3 cannot decide in time are cut and counted.")
+CHECKS["C03"] = dict(category=MC, design_ref="5/C03",
+    text="One inductive step of the real WriteBack/WriteThroughMemorySystem read_*/write_* from an arbitrary cache state satisfying the representation invariant (valid/dirty bits, tags, block words, LRU permutation / PLRU bits, counters, miss penalty and the whole lower memory symbolic; address, value and flags symbolic): reads return the flat (logical) value, writes update exactly the written bytes, word-crossing / out-of-range accesses are rejected and leave the logical contents unchanged, and the invariant is re-established - hence histories of any length. Plus 3-operation histories from a reset cache with symbolic addresses/values (independent of the invariant).",
+    note="Trusted: z3, fixedint model, the invariant and logical-memory abstraction in checks/cachestep.py. Bounds: geometries index/block bits <=1, ways <=2 (quick), up to 2/2/4 ways (thorough); direct-to-memory preload writes only claimed to bypass counters.")
+CHECKS["C04"] = dict(category=MC, design_ref="5/C04",
+    text="The real load_program assembles program texts enumerated from 17 line shapes (real and pseudo instructions, one label at every position stand-alone or in-line - also on expanding pseudos and at the end -, label / label+offset / numeric targets, with/without directives) whose numeric literals are all symbolic (sentinel literals mapped back by the rebound int()); the instruction memory is compared field by field, for all values, with an independent reference assembler. Register-name, mnemonic-case and number-base spelling sets and comment/blank/indent decorations are enumerated completely.",
+    note="Trusted: pyparsing on a concrete line, sentinel-literal stand-in (base checked), checks/asm.py reference. Bounds: <=2 instruction lines complete (quick), sampled 3 lines (thorough); texts outside the shapes are outside.")
+CHECKS["C05"] = dict(category=MC, design_ref="5/C05",
+    text="li rd, c for all c in [-2^33, 2^33] through the real load_program and real execution (6 paths: sign x expansion length x carry) leaves c mod 2^32; data-segment layouts over all declaration sequences (byte/half/word/string/zero) with symbolic element values, .zero sizes and indices are compared byte for byte with the reference layout, name[i] in la/load/store pseudo-instructions is executed and checked (indices up to 2^18: every lui/addi carry case), either segment order; the documented example is read from the help page of the working tree and must produce the values its own comments document.",
+    note="Trusted: as C04. Bounds: <=2 (quick) / 3 (thorough) declarations; decimal spellings (other bases lexically in C04/C15).")
+CHECKS["C07"] = dict(category=MC, design_ref="5/C07",
+    text="On every path of the bounded symbolic programs of C02 the cycle in which each instruction retires and the final cycle counter of the real five-stage simulation equal refs/pipe_ref.Timing (in-order recurrences written from the documented schedule: one fetch per cycle, write-before-read, two-bubble decode interlock against EX/MEM, control resolved in MEM, ecall drain); n mutually independent instructions take n+4 cycles (n<=6/8, symbolic registers constrained independent); cycle counter advances by one per step (penalty clause with caches in C11/C09).",
+    note="Trusted: my reading of the documented schedule (refs/pipe_ref.py, stated in DESIGN 5/C07). Bounds as C02.")
+CHECKS["C08"] = dict(category=MC, design_ref="5/C08",
+    text="The real five-stage simulation with hazard detection off is compared on bounded symbolic programs with an executable reference of an interlock-free pipeline (every instruction reads its sources in its last decode cycle and sees exactly the writes whose write-back cycle is <= that cycle; ecall drains; control in MEM): registers, memory, output, exit code, retire order and cycles, no decode-stage stall; nop-padded programs agree with single-cycle mode.",
+    note="Trusted: refs/pipe_ref.NoInterlockMachine + refs/riscv_ref. Bounds as C02 (quick sample excludes the heaviest L=3 skeletons).")
+CHECKS["C09"] = dict(category=MC, design_ref="5/C09",
+    text="Same inductive cache step as C03 with the accounting claims: hit verdict = residency in the pre-state, accesses/hits/last-hit flag/miss penalty (symbolic) for counted accesses, all four unchanged for uncounted reads and direct writes, and the post-state (which way holds the block, other ways/sets untouched, victim by the configured policy, LRU/PLRU update, no allocation on write-through write misses) equals a reference set-associative cache; plus 3-operation histories from reset.",
+    note="Trusted: reference cache formulas in checks/cachestep.py. Rejected accesses outside the claim. Program clause (same counters in both modes) via C11-style harness is not yet included for the data cache.")
+CHECKS["C10"] = dict(category=MC, design_ref="5/C10",
+    text="One inductive step of the real LRU / PLRU objects from an arbitrary policy state: LRU order list = any permutation sorted by ghost last-access timestamps (uninterpreted), access() keeps it sorted with the accessed block newest, victim has the minimal timestamp, get_repr() is the age rank; PLRU with arbitrary bits: victim follows the tree, access points every bit on the path away, off-path bits unchanged; access is idempotent.",
+    note="Bounds: LRU n<=6 (access) / <=4 (repr) quick, 8/6 thorough; PLRU n in {1,2,4,8} (+16 thorough).")
+CHECKS["C11"] = dict(category=MC, design_ref="5/C11",
+    text="One read_instruction() of the real InstructionMemoryCacheSystem from an arbitrary invariant state (valid bits, tags, replacement state, counters, penalty symbolic): returns the instruction at the address, counters/penalty/placement/victim/policy update equal the reference, invariant preserved; reset() from an arbitrary state equals a fresh system; bounded symbolic programs in both modes with an instruction cache: results unchanged, accesses = fetches (one per executed instruction in single-cycle mode), hits = trace-driven reference cache, every step advances cycles by 1 + penalty x misses.",
+    note="Bounds: 5-instruction program for the step harness, geometries <= (1,1,2); programs L<=2 sample + 4 loop skeletons.")
+CHECKS["C12"] = dict(category=MC, design_ref="5/C12",
+    text="Same inductive cache step as C03 with the backing-memory claims: write-through - backing memory equals the logical contents at every address and every resident word equals its backing word; write-back - backing memory differs from the logical contents only where the block is resident and the logical contents are exactly the flat update across every eviction path (no written value lost); plus 3-operation histories from reset.",
+    note="Trusted: as C03.")
+CHECKS["C13"] = dict(category=MC, design_ref="5/C13",
+    text="On bounded symbolic programs (both modes): every step() returns `not is_done()` evaluated afterwards, run() reaches a deep snapshot equal to stepping until done, further step()/run() on done states (incl. mid-run states with an exit code set) change nothing; same for TOY from an arbitrary state; empty / comment-only / directive-only texts are done immediately; load(A);load(B) equals load(B) on a fresh simulation for all ordered pairs of a text list incl. texts failing at every parser stage, with and without caches.",
+    note="Bounds: all one-instruction programs and light L=2 skeletons (quick); reload clause on concrete texts (symbolic numerics of loads are C04/C05).")
+CHECKS["C14"] = dict(category=MC, design_ref="5/C14",
+    text="For every class of the instruction map except FENCE the real __repr__ of an instance with symbolic immediate (whole encodable range) and enumerated register numbers is re-assembled by the real load_program behind k nops; class, fields and printed text are proved equal for all immediates. Listing clause: load(listing(load(P))) reproduces the listing for two-line program shapes with symbolic numerics.",
+    note="Trusted: as C04. Bounds: register sweep per operand (all 32 thorough), k in {0,1,7}.")
+CHECKS["C15"] = dict(category=MC, design_ref="5/C15",
+    text="For every int() conversion found by an AST scan of the parsers, z3's regex theory compares (no length bound) the literal language the live pyparsing grammar delivers with CPython's accepted literal language; witnesses outside it (and the 4300-digit limit) are pushed through the real load_program in every feeding line shape and must yield ParserException with an existing line. 80+ lexically / structurally faulty texts per assembler may only raise ParserException (valid line) or the size errors. Run time: every faulting class in both modes reports InstructionExecutionException with the address and printed form (symbolic operands).",
+    note="Trusted: grammar-to-regex translation, CPython literal grammar. Arbitrary token soups and termination are outside.")
+CHECKS["C16"] = dict(category=MC, design_ref="5/C16",
+    text="After the steps of bounded symbolic programs (both modes, with/without data and instruction caches) and TOY programs every public zero-argument get_*/is_*/has_* method (introspection) is called twice: z3 proves the deep snapshot (registers, memory, caches, replacement state, counters, latches) unchanged and the second result equal to the first.",
+    note="Bounds: pinned register numbers (dependency chain), initial register values < 2^31, states: initial, first, every 3rd, final; memory-table getter on a small real-dict memory.")
+CHECKS["C17"] = dict(category=MC, design_ref="5/C17",
+    text="get_n_bit_representations (n=12,16,32) on a symbolic number in [-2^40,2^40]: the output strings carry one symbolic digit per character, so the repository's grouping code acts on them; z3 proves separator positions and that every binary/hex character is the corresponding bit/nibble of value mod 2^n, and the decimal strings are the unsigned / two's-complement readings. Register table with symbolic values at enumerated positions; data-memory tables for every subset of <=3 written bytes of 9 candidate addresses (rows = written words, ascending, true addresses); TOY tables.",
+    note="Trusted: str(int); digit model of fixed-width formats validated against CPython by the concrete oracle on every path.")
+CHECKS["C19"] = dict(category=MC, design_ref="5/C19",
+    text="from_integer on a symbolic word in [-2^20,2^20]: class by opcode (13-15 -> NOP), address field, encode(decode(w)) == w for opcodes <= 12; every class with symbolic address encodes to a word that decodes to an equal instruction. The real TOY load_program on enumerated text skeletons (label at every position, decimal/hex/label/variable operands, 0-2 declarations, both segment orders, upper/lower case) with all numbers symbolic: instruction i at address i, variables downward from 4095, elements ascending, max_pc. Both help-page examples (read from the working tree) with symbolic n<=4 / symbolic tuple.",
+    note="Trusted: as C04; placement rules in checks/c19.py.")
+
 PLANNED = {}
 
 ALL = ["C%02d" % i for i in range(1, 21)]
